@@ -70,10 +70,6 @@ LEVEL = "exploration"
 SER = tmpls.ObjectUpdateCompressedDataSerializer
 FAST = objmod.FastObjectUpdateCompressedDataDeserializer
 CF = tmpls.CompressedFlags
-FLAG_LIST: List[Tuple[str, int]] = [(f.name, int(f.value)) for f in CF]
-ALL_FLAGS = 0
-for _n, _v in FLAG_LIST:
-    ALL_FLAGS |= _v
 PCODES = list(tmpls.PCode)
 PCODE_VALUES = {int(p) for p in PCODES}
 REGION_HANDLE = (256000 << 32) | 256512
@@ -190,8 +186,20 @@ SECTION_BASE: Dict[str, Dict[str, Any]] = {
                                                       SizeX=2, SizeY=3, Start=0.5, Length=6.25, Rate=0.125)},
     "PARTICLES_NEW": {"PSBlockNew": ps_new()},
 }
+# Sections the harness knows how to fill.  A flag the code names but the table lacks is never set by the generator (noted in
+# the evidence); a member the template gains is still caught by the field-keys clause on every payload.
+FLAG_LIST: List[Tuple[str, int]] = [(f.name, int(f.value)) for f in CF if f.name in SECTION_BASE]
 FLAG_VALUE = dict(FLAG_LIST)
-assert set(SECTION_BASE) == set(FLAG_VALUE), "CompressedFlags changed: harness section table must be updated"
+FLAGS_UNKNOWN_TO_HARNESS = [f.name for f in CF if f.name not in SECTION_BASE]
+if set(SECTION_BASE) - set(FLAG_VALUE):
+    raise HarnessError(f"CompressedFlags lost members the harness fills: {sorted(set(SECTION_BASE) - set(FLAG_VALUE))}")
+ALL_FLAGS = 0
+for _n, _v in FLAG_LIST:
+    ALL_FLAGS |= _v
+_NAMED_BITS = 0
+for _f in CF:
+    _NAMED_BITS |= int(_f.value)
+FREE_BITS = [1 << b for b in range(32) if not (1 << b) & _NAMED_BITS]  # flag bits no section is attached to
 
 
 def header(pcode, state: int = 0x12) -> dict:
@@ -320,8 +328,8 @@ def factor_table() -> List[Tuple[str, str, Optional[str], dict]]:
         PathRevolutions=255, PathSkew=127, ProfileBegin=65535, ProfileEnd=65535, ProfileHollow=65535)
     add("PrimParams", "min-signed", None, PathTwist=-128, PathTwistBegin=-128, PathRadiusOffset=-128, PathTaperX=-128, PathTaperY=-128,
         PathSkew=-128)
-    for extra_bits in (0x800, 0x80000000, 0x7FFFF800):
-        add("Flags", f"unknown-bits-{extra_bits:#x}", None, __extra_flag_bits=extra_bits)
+    for name, extra_bits in (("lowest", FREE_BITS[0]), ("highest", FREE_BITS[-1]), ("all-but-highest", sum(FREE_BITS[:-1]))):
+        add("Flags", f"unnamed-bits-{name}", None, __extra_flag_bits=extra_bits)
     return T
 
 
@@ -712,7 +720,7 @@ def representatives() -> List[Tuple[str, bytes, List[Tuple[int, str]]]]:
         ("scratchpad-0 + tree", F["SCRATCHPAD"] | F["TREE"] | F["PARENT_ID"], P.NEW_TREE, {"ScratchPad": b""}, 7),
         ("attachment all-but-particles", ALL_FLAGS & ~F["PARTICLES"] & ~F["PARTICLES_NEW"], P.PRIMITIVE, {"OwnerID": UUID()}, 0x80),
         ("avatar all sections", ALL_FLAGS, P.AVATAR, {"ExtraParams": EXTRA["sculpt"]}, 0x04),
-        ("unknown flag bits", F["PARENT_ID"] | F["SOUND"], P.GRASS, {"__extra_flag_bits": 0x80000800}, 9),
+        ("unknown flag bits", F["PARENT_ID"] | F["SOUND"], P.GRASS, {"__extra_flag_bits": FREE_BITS[0] | FREE_BITS[-1]}, 9),
         ("render-material + nv two", F["NAME_VALUES"], P.PRIMITIVE,
          {"ExtraParams": EXTRA["render-material-2"], "NameValue": NameValueCollection([nv(), nv("LastName", value="R")])}, 0x12),
         ("odd sections", 0x555, P.PRIMITIVE, {}, 0x12),
@@ -775,6 +783,8 @@ def run(run: Run):
     if missing:
         # not a harness error: the generator simply cannot fill the new member; the fast reader is judged by field-keys
         run.notes.append(f"template has members the generator does not fill: {sorted(missing)}")
+    if FLAGS_UNKNOWN_TO_HARNESS:
+        run.notes.append(f"CompressedFlags has members the generator never sets: {FLAGS_UNKNOWN_TO_HARNESS}")
 
     flag_chunks = [list(range(i, min(i + 32, 1 << len(FLAG_LIST)))) for i in range(0, 1 << len(FLAG_LIST), 32)]
     # map dense index -> flag value (CompressedFlags bits are contiguous today; do not rely on it)
